@@ -305,6 +305,10 @@ func (g *TxGen) Gen(t *rapid.T) *TxDesc {
 			kinds = append(kinds, "rtCommit", "rtCommit", "rtCommit", "rtCommit", "rtCommit", "rtCommit", "rtCommit", "rtCommit", "rtEvidence", "rtSubmitMsg", "rtSubmitMsg")
 		}
 	}
+	if g.W.Runtime != nil && strings.Contains(g.Profile, "rtmsgs") {
+		// incoming runtime messages: the runtime's queue (a few slots) fills up and further messages are refused
+		kinds = append(kinds, "rtSubmitMsg", "rtSubmitMsg", "rtSubmitMsg", "rtSubmitMsg", "rtSubmitMsg", "rtSubmitMsg", "rtSubmitMsg", "rtSubmitMsg")
+	}
 	if strings.Contains(g.Profile, "gov") {
 		// governance-heavy: proposals get submitted and (mostly) voted through by the entities
 		kinds = append(kinds, "proposal", "proposal", "vote", "vote", "vote", "vote", "vote", "vote", "vote", "vote")
